@@ -113,11 +113,19 @@ def mismatches(expr, domain, spec, limit=3):
     return bad
 
 
-def check_cond(ctx, rule, fi, node_ast, expr, domain, spec, what, meaning):
-    """records ok / finding: `expr` must be true exactly when `spec` says so."""
+def check_cond(ctx, rule, fi, node_ast, expr, domain, spec, what, meaning, closed=False):
+    """records ok / finding: `expr` must be true exactly when `spec` says so.
+    closed=True: the specification names every quantity the guard may depend on; an operand
+    outside the model is then itself the violation (the guard depends on something else)."""
     try:
         bad = mismatches(expr, domain, spec)
     except Unknown as u:
+        if closed:
+            ctx.fail(rule, fi.qname, what,
+                     "%s: the condition `%s` depends on `%s`, which is not one of the quantities this "
+                     "guard is specified over (%s)" % (meaning, norm(expr)[:100], u, ", ".join(sorted(domain))),
+                     fi.loc(node_ast))
+            return False
         raise AnalysisError("%s: condition `%s` in %s uses an operand the rule does not model (%s); "
                             "re-confirm the rule" % (rule, norm(expr)[:80], fi.qname, u))
     if bad:
